@@ -771,6 +771,12 @@ theorem C11_registry (h : H) (k : Key) (id : Nat) (e : Bool) :
     split
     · simp
     · rw [hr]; simp
+/-- the ConnectionState indices the model uses are the ones api/connectionstate.go declares (regenerated facts) -/
+theorem cs_names : Generated.connStateNames[csNone]? = some "ConnectionStateNone" ∧
+    Generated.connStateNames[csQueued]? = some "ConnectionStateQueued" ∧
+    Generated.connStateNames[csReceivedPairingRequest]? = some "ConnectionStateReceivedPairingRequest" ∧
+    Generated.connStateNames[csError]? = some "ConnectionStateError" := by decide
+
 /-! ### C18: pairing notifications converge on the hub's pairing detail -/
 
 def pendingFor (q : List Note) (k : Key) : List Note := q.filter (·.key = k)
